@@ -95,7 +95,7 @@ def buffer_end_locals(fn):
             if e.get("k") == "bin" and e.get("op") == "+":
                 l, r = strip_all_casts(e["l"]), strip_all_casts(e["r"])
                 if l.get("k") == "call" and (l.get("callee") or {}).get("nm") == "data" and r.get("k") == "call" and \
-                        (r.get("callee") or {}).get("nm") == "size" and canon(l.get("obj")) == canon(r.get("obj")) and "payloadData" in canon(l.get("obj")):
+                        (r.get("callee") or {}).get("nm") == "size" and canon(l.get("obj")) == canon(r.get("obj")) and fn.fb.is_payload_buffer(l.get("obj")):
                     out.add(d)
     return out
 
